@@ -73,6 +73,23 @@ Theorem C01_RotationGate_zero_unitary : forall v0 v1 v2 t it c s : K,
   unitary 1 (mxl (RotationGate_mat0 v0 v1 v2 t it c s)).
 Proof. intros. unfold RotationGate_mat0. mx_unitary []. Qed.
 End C01.
+Print Assumptions C01_IdentityGate_unitary.
+Print Assumptions C01_PauliXGate_unitary.
+Print Assumptions C01_PauliYGate_unitary.
+Print Assumptions C01_PauliZGate_unitary.
+Print Assumptions C01_SGate_unitary.
+Print Assumptions C01_SAdjGate_unitary.
+Print Assumptions C01_ISwapGate_unitary.
+Print Assumptions C01_HadamardGate_unitary.
+Print Assumptions C01_SxGate_unitary.
+Print Assumptions C01_TGate_unitary.
+Print Assumptions C01_TAdjGate_unitary.
+Print Assumptions C01_RxGate_unitary.
+Print Assumptions C01_RyGate_unitary.
+Print Assumptions C01_RxxGate_unitary.
+Print Assumptions C01_RzGate_unitary.
+Print Assumptions C01_RzzGate_unitary.
+Print Assumptions C01_RotationGate_zero_unitary.
 
 Print Assumptions C01_RyyGate_unitary.
 Print Assumptions C01_RotationGate_unitary.
@@ -164,6 +181,20 @@ Proof.
   - apply C01_RotationGate_unitary; [|apply cs_ok_R].
     apply nrm_ok_R. intros E. destruct G as [_ G]. discriminate (G E).
 Qed.
+Print Assumptions C01_IdentityGate_unitary_R.
+Print Assumptions C01_PauliXGate_unitary_R.
+Print Assumptions C01_PauliYGate_unitary_R.
+Print Assumptions C01_PauliZGate_unitary_R.
+Print Assumptions C01_SxGate_unitary_R.
+Print Assumptions C01_SGate_unitary_R.
+Print Assumptions C01_SAdjGate_unitary_R.
+Print Assumptions C01_TGate_unitary_R.
+Print Assumptions C01_TAdjGate_unitary_R.
+Print Assumptions C01_RxGate_unitary_R.
+Print Assumptions C01_RyGate_unitary_R.
+Print Assumptions C01_RzGate_unitary_R.
+Print Assumptions C01_RxxGate_unitary_R.
+Print Assumptions C01_RzzGate_unitary_R.
 Print Assumptions C01_RotationGate_unitary_R.
 
 (** non-vacuity / sanity on a concrete non-trivial instance over the Gaussian integers:
